@@ -44,7 +44,7 @@ const (
 type C13DBI struct {
 	Name    string `json:"name"`
 	N       int    `json:"n"`
-	Pattern []int  `json:"pattern"` // entry i has kind Pattern[i % len]
+	Pattern []int  `json:"pattern"`         // entry i has kind Pattern[i % len]
 	Plain   bool   `json:"plain,omitempty"` // application DBI in non-native mode: plain values (some look like expired markers)
 }
 
